@@ -91,28 +91,61 @@ Definition description_roundtrips (o : popts) (desc : str) (depth : nat) : bool 
 Section Conforms.
   Variable E : env.
 
-  (* values a literal of that type coerces to (input objects: see docs/C12.md) *)
-  Inductive conforms : tref -> pv -> Prop :=
-  | cf_null t : is_nonnull t = false -> conforms t PNone
-  | cf_nonnull t v : is_nonnull t = false -> v <> PNone -> conforms t v -> conforms (RNonNull t) v
-  | cf_list_nil t : conforms (RList t) (PList [])
-  | cf_list_cons t x l : conforms t x -> conforms (RList t) (PList l) -> conforms (RList t) (PList (x :: l))
-  | cf_string s : conforms (RNamed (S_ "String")) (PStr s)
-  | cf_bool b : conforms (RNamed (S_ "Boolean")) (PBool b)
-  | cf_id s : conforms (RNamed (S_ "ID")) (PStr s)
-  | cf_int z : strict_int32 z = true -> conforms (RNamed (S_ "Int")) (PInt z)
+  (* the entries of a coerced input object: the fields of the type that are
+     present, in the order of the type, under their python names *)
+  Definition selection (fs : list ifield) (kvs : list (str * pv)) : list (str * pv) :=
+    flat_map (fun fd => match alookup (if_py fd) kvs with
+                        | Some v => [(if_py fd, v)]
+                        | None => []
+                        end) fs.
+
+  Definition not_ast (d : dsrc) : bool := match d with DAst _ => false | _ => true end.
+
+  (* one level of conformity; [P] is conformity of the values nested one input
+     object deeper *)
+  Inductive conf_step (P : tref -> pv -> Prop) : tref -> pv -> Prop :=
+  | cf_null t : is_nonnull t = false -> conf_step P t PNone
+  | cf_nonnull t v : is_nonnull t = false -> v <> PNone -> conf_step P t v -> conf_step P (RNonNull t) v
+  | cf_list_nil t : conf_step P (RList t) (PList [])
+  | cf_list_cons t x l : conf_step P t x -> conf_step P (RList t) (PList l) ->
+                         conf_step P (RList t) (PList (x :: l))
+  | cf_string s : conf_step P (RNamed (S_ "String")) (PStr s)
+  | cf_bool b : conf_step P (RNamed (S_ "Boolean")) (PBool b)
+  | cf_id s : conf_step P (RNamed (S_ "ID")) (PStr s)
+  | cf_int z : strict_int32 z = true -> conf_step P (RNamed (S_ "Int")) (PInt z)
   | cf_float r : float_integral r = None -> float_repr r = r ->
-                 conforms (RNamed (S_ "Float")) (PFloat r)
+                 conf_step P (RNamed (S_ "Float")) (PFloat r)
   | cf_custom_str n s : mem_str n specified_scalars = false -> alookup n E = Some IScalar ->
                         int_re s = false -> float_re s = false ->
-                        conforms (RNamed n) (PStr s)
+                        conf_step P (RNamed n) (PStr s)
   | cf_custom_float n r : mem_str n specified_scalars = false -> alookup n E = Some IScalar ->
-                          float_repr r = r -> conforms (RNamed n) (PFloat r)
+                          float_repr r = r -> conf_step P (RNamed n) (PFloat r)
   | cf_custom_bool n b : mem_str n specified_scalars = false -> alookup n E = Some IScalar ->
-                         conforms (RNamed n) (PBool b)
+                         conf_step P (RNamed n) (PBool b)
   | cf_enum n vals m v : mem_str n specified_scalars = false -> alookup n E = Some (IEnum vals) ->
                          enum_name_of v vals = Some m -> alookup m vals = Some v -> v <> PNone ->
-                         conforms (RNamed n) v.
+                         conf_step P (RNamed n) v
+  (* an input object: exactly the present fields in type order; every field
+     with a declared default is present (coercion fills it in); an absent
+     field is nullable; the values of present fields conform *)
+  | cf_input n fs kvs :
+      mem_str n specified_scalars = false -> alookup n E = Some (IInput fs) ->
+      NoDup (map if_name fs) ->
+      forallb (fun fd => not_ast (if_def fd)) fs = true ->
+      kvs = selection fs kvs ->
+      (forall fd, In fd fs ->
+         (forall v, alookup (if_py fd) kvs = Some v -> P (if_type fd) v)
+         /\ (alookup (if_py fd) kvs = None -> if_def fd = DNo /\ is_nonnull (if_type fd) = false)) ->
+      conf_step P (RNamed n) (PDict kvs).
+
+  (* values a literal of that type coerces to, input objects nested to depth d *)
+  Fixpoint conformsN (d : nat) : tref -> pv -> Prop :=
+    match d with
+    | O => conf_step (fun _ _ => False)
+    | S d' => conf_step (conformsN d')
+    end.
+
+  Definition conforms (t : tref) (v : pv) : Prop := exists d, conformsN d t v.
 End Conforms.
 
 (* ---- the document a printed schema denotes --------------------------- *)
